@@ -88,6 +88,13 @@ Prog(cfg) ==
     [] cfg.shape \in {"nil2", "nilif"} -> <<NilSrc(cfg, N[1]), NilSrc(cfg, N[2])>>
     [] cfg.shape = "nilin" -> NodeUnits(cfg, N[1])
     [] cfg.shape = "nilbr" -> <<NilSrc(cfg, N[1]), [op |-> "branch"]>> \o NodeUnits(cfg, NodeByName(cfg, cfg.pick))
+    \* edge a -> b plus a branch on a whose ends include b: when the branch picks b, b is written twice in one step (value mode: the
+    \* same value; stream mode: two copies of a's stream, the surplus one is closed) and runs once
+    [] cfg.shape = "ebr" -> NodeUnits(cfg, N[1]) \o <<[op |-> "branch"]>> \o NodeUnits(cfg, N[2])
+    \* END with a data predecessor b and an execution-only predecessor c behind a branch (all-predecessor channels): picking c skips b,
+    \* END becomes ready holding no value and yields its placeholder: the OUTPUT type's zero value / a one-chunk stream of it
+    [] cfg.shape \in {"eskw", "eskg"} -> NodeUnits(cfg, N[1]) \o <<[op |-> "branch"]>> \o NodeUnits(cfg, NodeByName(cfg, cfg.pick))
+                                         \o (IF cfg.pick = "b" THEN <<[op |-> "outkey", k |-> "b"]>> ELSE <<[op |-> "nodata"]>>)
     [] cfg.shape = "branch" -> NodeUnits(cfg, N[1]) \o <<[op |-> "branch"]>> \o NodeUnits(cfg, NodeByName(cfg, cfg.pick))
     [] cfg.shape = "keys" -> IF Len(N) = 1 THEN <<[op |-> "inkey", k |-> "x"]>> \o NodeUnits(cfg, N[1]) \o <<[op |-> "outkey", k |-> "out"]>>
                              ELSE <<[op |-> "inkey", k |-> "x"]>> \o NodeUnits(cfg, N[1]) \o <<[op |-> "outkey", k |-> "mid"], [op |-> "inkey", k |-> "mid"]>>
@@ -176,6 +183,7 @@ StepV(e, x, Fx) ==
          \* a nil interface value is an ordinary value of an interface-typed edge: boxed into `any` it is the zero value of the
          \* declared type again at the next node, at a branch and as the graph's result (written "")
          [] e.op = "nilsrc" -> IF e.fail # "" THEN ValFail("node-failure") ELSE ValOK(Bare(""))
+         [] e.op = "nodata" -> ValOK(<<>>)                              \* dagChannel's zero value of the graph's output type
          [] e.op = "inkey" -> IF e.k \in DOMAIN x.m THEN ValOK(Bare(x.m[e.k])) ELSE ValFail("cannot find input key")
          [] e.op = "outkey" -> ValOK((e.k :> x.m[""]))
          [] e.op = "par" ->
@@ -197,6 +205,7 @@ StepS(e, x, Fx) ==
          [] e.op = "branch" -> x
          [] e.op = "nilsrc" -> IF e.fail # "" THEN StrFail("node-failure")
                                ELSE StrOK(Wrap("", IF FormUsed(e, TRUE) \in {"T", "S"} THEN [i \in 1..e.oc |-> ""] ELSE <<"">>))   \* oc nil chunks / one boxed nil
+         [] e.op = "nodata" -> StrOK(<< <<>> >>)                        \* ... resp. its empty stream: one chunk holding that zero value
          [] e.op = "inkey" -> LET sel == SelectSeq(x.cs, LAMBDA c : e.k \in DOMAIN c)          \* chunks without the key are skipped
                               IN StrOK([i \in 1..Len(sel) |-> Bare(sel[i][e.k])])
          [] e.op = "outkey" -> StrOK(Wrap(e.k, Strs(x.cs)))                                   \* withKey on every chunk
@@ -222,7 +231,7 @@ vars == <<cfg, phase, pos, acc>>
 
 NoFail == [n |-> "", how |-> ""]
 EmptyCfg == [shape |-> "", nodes |-> <<>>, in |-> <<>>, dup |-> FALSE, pick |-> "", bstrm |-> FALSE, z |-> FALSE, fail |-> NoFail, anyout |-> FALSE]
-NodesWanted(sh) == CASE sh \in {"nil1", "nilin"} -> {1} [] sh \in {"nil2", "nilif"} -> {2} [] sh = "nilbr" -> {3} [] sh = "fank" -> 4..MaxNodes [] sh \in {"fmap", "nmap", "nmapn"} -> {2} [] sh = "chain" -> 1..MaxNodes [] sh = "nested" -> 2..MaxNodes [] sh = "fan2" -> {2} [] sh = "fan3" -> {3}
+NodesWanted(sh) == CASE sh \in {"ebr", "eskw", "eskg"} -> {3} [] sh \in {"nil1", "nilin"} -> {1} [] sh \in {"nil2", "nilif"} -> {2} [] sh = "nilbr" -> {3} [] sh = "fank" -> 4..MaxNodes [] sh \in {"fmap", "nmap", "nmapn"} -> {2} [] sh = "chain" -> 1..MaxNodes [] sh = "nested" -> 2..MaxNodes [] sh = "fan2" -> {2} [] sh = "fan3" -> {3}
                      [] sh = "branch" -> {3} [] sh = "keys" -> 1..(IF MaxNodes > 2 THEN 2 ELSE MaxNodes)
 HandlerOK(sh) == sh \in {"chain"}
 Init == cfg = EmptyCfg /\ phase = "shape" /\ pos = 0 /\ acc = <<>>
@@ -240,11 +249,12 @@ AddNode(nat, oc, pre, post) ==
   /\ (cfg.shape = "fank" => Cardinality(nat) = 1)
   /\ cfg' = [cfg EXCEPT !.nodes = Append(@, [n |-> Names[Len(cfg.nodes) + 1], nat |-> SetToSeq(nat), oc |-> oc, pre |-> pre, post |-> post])]
   /\ UNCHANGED <<phase, pos, acc>>
-Executed(c) == IF c.shape \in {"branch", "nilbr"} THEN {"a", c.pick} ELSE {c.nodes[i].n : i \in 1..Len(c.nodes)}
+Executed(c) == IF c.shape \in {"branch", "nilbr", "ebr", "eskw", "eskg"} THEN {"a", c.pick} ELSE {c.nodes[i].n : i \in 1..Len(c.nodes)}
 Finish(in, dup, pick, bstrm, z, f, anyout) ==
   /\ phase = "nodes" /\ Len(cfg.nodes) \in NodesWanted(cfg.shape)
   /\ (dup => cfg.shape \in {"fan2", "fan3"} /\ AllowDup)
-  /\ (cfg.shape \in {"branch", "nilbr"} => pick \in {"b", "c"}) /\ (cfg.shape \notin {"branch", "nilbr"} => pick = "" /\ ~bstrm)
+  /\ (cfg.shape \in {"branch", "nilbr", "eskw", "eskg"} => pick \in {"b", "c"}) /\ (cfg.shape = "ebr" => pick = "b")
+  /\ (cfg.shape \notin {"branch", "nilbr", "ebr", "eskw", "eskg"} => pick = "" /\ ~bstrm)
   /\ (z => cfg.shape = "keys")
   /\ (anyout => AllowAny /\ cfg.shape = "chain" /\ Len(cfg.nodes) >= 2 /\ Range(cfg.nodes[1].nat) \in {{"I"}, {"C"}} /\ cfg.nodes[1].post = "none")
   /\ (f.n # "" => AllowFail /\ ~dup /\ f.n \in Executed([cfg EXCEPT !.pick = pick])
